@@ -52,12 +52,78 @@ fn check_value(sig: &str, got: f64, f: &v1::Function, state: &v1::State, regime:
     Ok(())
 }
 
+impl C01 {
+    /// functions well beyond the usual handful of terms (20..80 raw terms over as many ids, non-zero constant):
+    /// implementations may switch algorithm with size (blocked / pairwise summation, pre-sized tables)
+    fn run_big(&self, t: &mut Tape, regime: Regime, cfg: &FuncCfg, ctx: &mut Ctx) -> PResult {
+        ctx.label("mode=big");
+        let variant = t.choice(3) as u8; // 0 linear, 1 quadratic, 2 polynomial
+        let n = 20 + t.choice(61);
+        let base = *t.pick(&[0u64, 1, 1000]);
+        let mut terms: Vec<(Vec<u64>, f64)> = Vec::new();
+        let c0 = gen_coeff(t, regime, false);
+        if !t.p(40) {
+            terms.push((vec![], c0));
+        }
+        for i in 0..n {
+            let c = gen_coeff(t, regime, false);
+            let other = base + t.choice(n) as u64;
+            let m = match (variant, t.choice(4)) {
+                (0, _) | (_, 0) | (_, 1) => vec![base + i as u64],
+                (1, _) | (_, 2) => vec![base + i as u64, other],
+                _ => vec![other, base + i as u64, other],
+            };
+            terms.push((m, c));
+        }
+        if terms.len() > 32 {
+            ctx.label("terms>32");
+        }
+        let fcfg = FuncCfg { force_variant: variant + 2, ..cfg.clone() };
+        let f = render(t, &terms, &fcfg, ctx);
+        let used = syntactic_ids(&f);
+        let state = gen_state(t, used.iter().copied(), regime);
+        ctx.fp_msg(&f);
+        ctx.fp_state(&state);
+        ctx.fp(&[9]);
+        ctx.nontrivial();
+        ctx.sample_with(|| json!({"mode":"big function","terms":terms.len(),"variant":variant}));
+        let (v, got_ids) = match f.evaluate(&state) {
+            Ok(x) => x,
+            Err(e) => return fail("C01/big/err-on-total-state", format!("evaluate failed on a total state: {e} for {f:?}")),
+        };
+        check_value("big", v, &f, &state, regime, ctx)?;
+        if got_ids != used {
+            return fail("C01/big/id-set", format!("returned id set {got_ids:?} differs from ids occurring in the message {used:?}"));
+        }
+        // the same function through evaluate_samples (two ids sharing the state)
+        let mut samples = v1::Samples::default();
+        samples.entries.push(crate::mk::samples_entry(state.clone(), vec![3, 4]));
+        match f.evaluate_samples(&samples) {
+            Ok((sv, _)) => {
+                for e in &sv.entries {
+                    check_value("big-samples", e.value, &f, &state, regime, ctx)?;
+                }
+            }
+            Err(e) => return fail("C01/big/samples-err", format!("evaluate_samples failed: {e}")),
+        }
+        // missing variable: the last id
+        if let Some(victim) = used.iter().next_back().copied() {
+            let mut s2 = state.clone();
+            s2.entries.remove(&victim);
+            if let Ok((v, _)) = f.evaluate(&s2) {
+                return fail("C01/big/missing-var-accepted", format!("evaluate returned {v} although the state lacks id {victim}"));
+            }
+        }
+        Ok(())
+    }
+}
+
 impl Property for C01 {
     fn id(&self) -> &'static str {
         "C01"
     }
     fn rule(&self) -> &'static str {
-        "case = function message (any oneof state, any wire-legal representation, <=8 raw terms, degree<=4, ids incl. 0 and u64::MAX) x state; \
+        "case = function message (any oneof state, any wire-legal representation, <=8 raw terms, degree<=4, ids incl. 0 and u64::MAX; about 5% of the cases: 20..80 raw terms over as many ids) x state; \
          oracle = exact rational value of the raw message fields; non-trivial = >=2 raw terms and (un-normalised representation or missing-variable case or multi-sample case); \
          distinct = sha256 of (encoded message, state, mode)"
     }
@@ -79,6 +145,8 @@ impl Property for C01 {
             "mode=samples",
             "compare=bit-exact",
             "compare=rounding-bound",
+            "mode=big",
+            "terms>32",
         ]
         .iter()
         .map(|s| s.to_string())
@@ -89,6 +157,9 @@ impl Property for C01 {
             Tier::Quick => 300_000,
             Tier::Thorough => 10_000_000,
         }
+    }
+    fn tape_max(&self) -> usize {
+        448
     }
     fn assumptions(&self) -> Vec<String> {
         vec![
@@ -104,6 +175,9 @@ impl Property for C01 {
             regime,
             ..FuncCfg::default()
         };
+        if t.p(14) {
+            return self.run_big(t, regime, &cfg, ctx);
+        }
         let ids = gen_ids(t, 5);
         let f = gen_function(t, &ids, &cfg, ctx);
         let used = syntactic_ids(&f);
